@@ -230,6 +230,25 @@ func c16LeafCount(c *core.Ctx, n uint64, h uint, rng *rand.Rand, allPositions bo
 			c.Violate("DetectOffset", "bit-walk", "", fmt.Sprintf("%s pos=%d: walking bits %b (len %d) from root of tree %d ends at %d", e, p, bits, k, ti, end))
 		}
 	}
+	// Positions of the height that the leaf count does not populate: the first unused leaf slot
+	// must be refused with the function's documented error (unless it is the start of row 1, i.e.
+	// n is a power of two), and the call must return for the first unused offset of every row
+	// (a call that spins is caught by the driver's watchdog as a case that does not return).
+	if n&(n-1) != 0 {
+		c.Eval(1)
+		if tree, blen, _, err := u.DetectOffset(n, n); err == nil {
+			c.Violate("DetectOffset", "absent-position-accepted", "", fmt.Sprintf("%s: DetectOffset(%d, %d) names tree %d branch length %d for the first unused leaf slot instead of returning its error", e, n, n, tree, blen))
+		}
+	}
+	for row := uint(0); row <= h && row < 64; row++ {
+		used := new(big.Int).Rsh(new(big.Int).SetUint64(n), row) // offsets 0..used-1 of this row can hold nodes
+		width := new(big.Int).Lsh(big.NewInt(1), h-row)
+		if used.Cmp(width) < 0 {
+			c.Eval(1)
+			u.DetectOffset(bpos(row, h, used), n)
+			c.Count("detectoffset_calls_on_unpopulated_positions", 1)
+		}
+	}
 	for ti, t := range trees {
 		if allPositions {
 			for row := uint(0); row <= t.row; row++ {
